@@ -19,9 +19,9 @@ package mutating
 //@ func replaceAndEraseResource [C13]
 //@   requires nameMapAt(priorityClass, resourceName)
 //@   let e = extName(priorityClass, resourceName)
-//@   ensures #noop: e == "" || !old(has(resourceList, resourceName)) ==> !result && (forall n corev1.ResourceName :: has(resourceList, n) == old(has(resourceList, n)) && val(resourceList, n) == old(val(resourceList, n)))
+//@   ensures #noop: e == "" || !old(has(resourceList, resourceName)) ==> !result && (forall n corev1.ResourceName :: {has(resourceList, n)} {val(resourceList, n)} has(resourceList, n) == old(has(resourceList, n)) && val(resourceList, n) == old(val(resourceList, n)))
 //@   ensures #moved: e != "" && old(has(resourceList, resourceName)) ==> result && !has(resourceList, resourceName) && has(resourceList, e) && val(resourceList, e) == xlate(resourceName, old(val(resourceList, resourceName)))
-//@   ensures #rest: forall n corev1.ResourceName :: n != e && n != resourceName ==> has(resourceList, n) == old(has(resourceList, n)) && val(resourceList, n) == old(val(resourceList, n))
+//@   ensures #rest: forall n corev1.ResourceName :: {has(resourceList, n)} {val(resourceList, n)} n != e && n != resourceName ==> has(resourceList, n) == old(has(resourceList, n)) && val(resourceList, n) == old(val(resourceList, n))
 //@   modifies contents(resourceList)
 //@   ensures #erased: e != "" ==> !has(resourceList, resourceName)   // hence a second application takes the #noop branch
 
@@ -49,11 +49,22 @@ package mutating
 
 //@ spec func sameAsOld(m corev1.ResourceList) bool = forall n corev1.ResourceName :: {has(m, n)} {val(m, n)} has(m, n) == old(has(m, n)) && val(m, n) == old(val(m, n))
 
-// contents of map m (same reference before and after) are the translation of its old contents for tier c
-//@ spec func mapXlated(c extension.PriorityClass, m corev1.ResourceList) bool = forall n corev1.ResourceName :: {has(m, n)} {val(m, n)} (isNative(n) ==> !has(m, n)) && (n == extName(c, corev1.ResourceCPU) ==> has(m, n) == old(has(m, corev1.ResourceCPU) || has(m, n)) && val(m, n) == old(has(m, corev1.ResourceCPU) ? xlate(corev1.ResourceCPU, val(m, corev1.ResourceCPU)) : val(m, n))) && (n == extName(c, corev1.ResourceMemory) ==> has(m, n) == old(has(m, corev1.ResourceMemory) || has(m, n)) && val(m, n) == old(has(m, corev1.ResourceMemory) ? val(m, corev1.ResourceMemory) : val(m, n))) && (!isNative(n) && n != extName(c, corev1.ResourceCPU) && n != extName(c, corev1.ResourceMemory) ==> has(m, n) == old(has(m, n)) && val(m, n) == old(val(m, n)))
+// entry n of the translation (tier c) of a list m: native entries vanish, the extended entry takes the native amount
+// (CPU in milli-cores) when there was one, everything else is kept. Evaluated on the OLD contents of m.
+//@ spec func xHas(c extension.PriorityClass, m corev1.ResourceList, n corev1.ResourceName) bool = isNative(n) ? false : (n == extName(c, corev1.ResourceCPU) ? (has(m, corev1.ResourceCPU) || has(m, n)) : (n == extName(c, corev1.ResourceMemory) ? (has(m, corev1.ResourceMemory) || has(m, n)) : has(m, n)))
+//@ spec func xVal(c extension.PriorityClass, m corev1.ResourceList, n corev1.ResourceName) resource.Quantity = isNative(n) ? 0 : (n == extName(c, corev1.ResourceCPU) ? (has(m, corev1.ResourceCPU) ? xlate(corev1.ResourceCPU, val(m, corev1.ResourceCPU)) : val(m, n)) : (n == extName(c, corev1.ResourceMemory) ? (has(m, corev1.ResourceMemory) ? val(m, corev1.ResourceMemory) : val(m, n)) : val(m, n)))
 
-// requests of container cs[j]: translated like a limit list, then every missing extended request is filled from the (translated) limit
-//@ spec func reqXlated(c extension.PriorityClass, cs []corev1.Container, j int) bool = (old(cs[j].Resources.Requests) != nil ==> cs[j].Resources.Requests == old(cs[j].Resources.Requests)) && (old(cs[j].Resources.Requests) == nil ==> cs[j].Resources.Requests == nil || fresh(cs[j].Resources.Requests)) && (forall n corev1.ResourceName :: {has(cs[j].Resources.Requests, n)} {val(cs[j].Resources.Requests, n)} (isNative(n) ==> !has(cs[j].Resources.Requests, n)) && (n == extName(c, corev1.ResourceCPU) ==> has(cs[j].Resources.Requests, n) == (old(has(cs[j].Resources.Requests, corev1.ResourceCPU) || has(cs[j].Resources.Requests, n)) || has(cs[j].Resources.Limits, n)) && val(cs[j].Resources.Requests, n) == (old(has(cs[j].Resources.Requests, corev1.ResourceCPU)) ? old(xlate(corev1.ResourceCPU, val(cs[j].Resources.Requests, corev1.ResourceCPU))) : (old(has(cs[j].Resources.Requests, n)) ? old(val(cs[j].Resources.Requests, n)) : val(cs[j].Resources.Limits, n)))) && (n == extName(c, corev1.ResourceMemory) ==> has(cs[j].Resources.Requests, n) == (old(has(cs[j].Resources.Requests, corev1.ResourceMemory) || has(cs[j].Resources.Requests, n)) || has(cs[j].Resources.Limits, n)) && val(cs[j].Resources.Requests, n) == (old(has(cs[j].Resources.Requests, corev1.ResourceMemory)) ? old(val(cs[j].Resources.Requests, corev1.ResourceMemory)) : (old(has(cs[j].Resources.Requests, n)) ? old(val(cs[j].Resources.Requests, n)) : val(cs[j].Resources.Limits, n)))) && (!isNative(n) && n != extName(c, corev1.ResourceCPU) && n != extName(c, corev1.ResourceMemory) ==> has(cs[j].Resources.Requests, n) == old(has(cs[j].Resources.Requests, n)) && val(cs[j].Resources.Requests, n) == old(val(cs[j].Resources.Requests, n))))
+// contents of map m (same reference before and after) are the translation of its old contents for tier c
+//@ spec func mapXlated(c extension.PriorityClass, m corev1.ResourceList) bool = forall n corev1.ResourceName :: {has(m, n)} {val(m, n)} has(m, n) == old(xHas(c, m, n)) && val(m, n) == old(xVal(c, m, n))
+
+// entry n of the requests r of a container with limits l after the whole step: translated like a limit list, then a
+// missing extended request is filled from the translated limit. Evaluated on the OLD contents of r and l.
+//@ spec func isExt(c extension.PriorityClass, n corev1.ResourceName) bool = n == extName(c, corev1.ResourceCPU) || n == extName(c, corev1.ResourceMemory)
+//@ spec func rHas(c extension.PriorityClass, r corev1.ResourceList, l corev1.ResourceList, n corev1.ResourceName) bool = xHas(c, r, n) || (isExt(c, n) && xHas(c, l, n))
+//@ spec func rVal(c extension.PriorityClass, r corev1.ResourceList, l corev1.ResourceList, n corev1.ResourceName) resource.Quantity = xHas(c, r, n) ? xVal(c, r, n) : ((isExt(c, n) && xHas(c, l, n)) ? xVal(c, l, n) : 0)
+
+// requests of container cs[j]: same map object when there was one (else nil or a new map), contents as rHas/rVal say
+//@ spec func reqXlated(c extension.PriorityClass, cs []corev1.Container, j int) bool = (old(cs[j].Resources.Requests) != nil ==> cs[j].Resources.Requests == old(cs[j].Resources.Requests)) && (old(cs[j].Resources.Requests) == nil ==> cs[j].Resources.Requests == nil || fresh(cs[j].Resources.Requests)) && (forall n corev1.ResourceName :: {has(cs[j].Resources.Requests, n)} {val(cs[j].Resources.Requests, n)} has(cs[j].Resources.Requests, n) == old(rHas(c, cs[j].Resources.Requests, cs[j].Resources.Limits, n)) && val(cs[j].Resources.Requests, n) == old(rVal(c, cs[j].Resources.Requests, cs[j].Resources.Limits, n)))
 
 //@ spec func contDone(c extension.PriorityClass, cs []corev1.Container, j int) bool = cs[j].Resources.Limits == old(cs[j].Resources.Limits) && mapXlated(c, cs[j].Resources.Limits) && reqXlated(c, cs, j)
 
@@ -61,7 +72,7 @@ package mutating
 
 // All resource lists of a decoded pod are distinct map objects: owner() ranks them injectively.
 //@ spec func owner(m corev1.ResourceList) int
-//@ spec func distinctLists(pod *corev1.Pod) bool = (forall j int :: 0 <= j && j < len(pod.Spec.InitContainers) ==> (pod.Spec.InitContainers[j].Resources.Requests != nil ==> owner(pod.Spec.InitContainers[j].Resources.Requests) == 4*j) && (pod.Spec.InitContainers[j].Resources.Limits != nil ==> owner(pod.Spec.InitContainers[j].Resources.Limits) == 4*j+1)) && (forall j int :: 0 <= j && j < len(pod.Spec.Containers) ==> (pod.Spec.Containers[j].Resources.Requests != nil ==> owner(pod.Spec.Containers[j].Resources.Requests) == 4*j+2) && (pod.Spec.Containers[j].Resources.Limits != nil ==> owner(pod.Spec.Containers[j].Resources.Limits) == 4*j+3)) && (pod.Spec.Overhead != nil ==> owner(pod.Spec.Overhead) == 0-1) && (len(pod.Spec.InitContainers) == 0 || len(pod.Spec.Containers) == 0 || arr(pod.Spec.InitContainers) != arr(pod.Spec.Containers))
+//@ spec func distinctLists(pod *corev1.Pod) bool = (forall j int :: {pod.Spec.InitContainers[j].Resources.Limits} {pod.Spec.InitContainers[j].Resources.Requests} {old(pod.Spec.InitContainers[j].Resources.Requests)} 0 <= j && j < len(pod.Spec.InitContainers) ==> (pod.Spec.InitContainers[j].Resources.Requests != nil ==> owner(pod.Spec.InitContainers[j].Resources.Requests) == 4*j) && (pod.Spec.InitContainers[j].Resources.Limits != nil ==> owner(pod.Spec.InitContainers[j].Resources.Limits) == 4*j+1)) && (forall j int :: {pod.Spec.Containers[j].Resources.Limits} {pod.Spec.Containers[j].Resources.Requests} {old(pod.Spec.Containers[j].Resources.Requests)} 0 <= j && j < len(pod.Spec.Containers) ==> (pod.Spec.Containers[j].Resources.Requests != nil ==> owner(pod.Spec.Containers[j].Resources.Requests) == 4*j+2) && (pod.Spec.Containers[j].Resources.Limits != nil ==> owner(pod.Spec.Containers[j].Resources.Limits) == 4*j+3)) && (pod.Spec.Overhead != nil ==> owner(pod.Spec.Overhead) == 0-1) && (len(pod.Spec.InitContainers) == 0 || len(pod.Spec.Containers) == 0 || arr(pod.Spec.InitContainers) != arr(pod.Spec.Containers))
 
 //@ spec func sameSlice(a []corev1.Container, b []corev1.Container) bool = arr(a) == arr(b) && off(a) == off(b) && len(a) == len(b)
 
@@ -73,33 +84,72 @@ package mutating
 // nothing left to translate in container cs[j]: no native cpu/memory entry, every extended limit has its request
 //@ spec func settled(c extension.PriorityClass, cs []corev1.Container, j int) bool = !has(cs[j].Resources.Requests, corev1.ResourceCPU) && !has(cs[j].Resources.Requests, corev1.ResourceMemory) && !has(cs[j].Resources.Limits, corev1.ResourceCPU) && !has(cs[j].Resources.Limits, corev1.ResourceMemory) && (has(cs[j].Resources.Limits, extName(c, corev1.ResourceCPU)) ==> has(cs[j].Resources.Requests, extName(c, corev1.ResourceCPU))) && (has(cs[j].Resources.Limits, extName(c, corev1.ResourceMemory)) ==> has(cs[j].Resources.Requests, extName(c, corev1.ResourceMemory)))
 
+// the first k containers of cs are translated / settled; the containers from k on are untouched
+//@ spec func doneUpTo(c extension.PriorityClass, cs []corev1.Container, k int) bool = forall j int :: {cs[j].Resources.Limits} {cs[j].Resources.Requests} {old(cs[j].Resources.Requests)} 0 <= j && j < k && j < len(cs) ==> contDone(c, cs, j)
+//@ spec func settledUpTo(c extension.PriorityClass, cs []corev1.Container, k int) bool = forall j int :: {cs[j].Resources.Limits} {cs[j].Resources.Requests} {old(cs[j].Resources.Requests)} 0 <= j && j < k && j < len(cs) ==> settled(c, cs, j)
+//@ spec func sameFrom(cs []corev1.Container, k int) bool = forall j int :: {cs[j].Resources.Limits} {cs[j].Resources.Requests} {old(cs[j].Resources.Requests)} k <= j && 0 <= j && j < len(cs) ==> contSame(cs, j)
+
 // some container among the first k of cs was not settled at function entry
-//@ spec func dirtyBefore(c extension.PriorityClass, cs []corev1.Container, k int) bool = exists j int :: 0 <= j && j < k && j < len(cs) && !old(settled(c, cs, j))
+//@ spec func dirtyBefore(c extension.PriorityClass, cs []corev1.Container, k int) bool = exists j int :: {cs[j].Resources.Limits} {cs[j].Resources.Requests} {old(cs[j].Resources.Requests)} 0 <= j && j < k && j < len(cs) && !old(settled(c, cs, j))
+
+// pieces of contDone used as stepping stones
+//@ spec func limDone(c extension.PriorityClass, cs []corev1.Container, j int) bool = cs[j].Resources.Limits == old(cs[j].Resources.Limits) && mapXlated(c, cs[j].Resources.Limits)
+//@ spec func reqInPlace(c extension.PriorityClass, cs []corev1.Container, j int) bool = cs[j].Resources.Requests == old(cs[j].Resources.Requests) && mapXlated(c, cs[j].Resources.Requests)
 
 //@ func (*PodMutatingHandler).mutatePodResourceSpec [C13]
-//@   option inline restrictResourceRequestAndLimit replaceAndEraseResource
+//@   option inline restrictResourceRequestAndLimit
 //@   requires extension.rangesOK() && extension.DefaultPriorityClass == extension.PriorityNone
 //@   requires pod != nil && distinctLists(pod)
 //@   let c = extension.podPrioDefault(pod)
 //@   requires nameMapAt(c, corev1.ResourceCPU) && nameMapAt(c, corev1.ResourceMemory)
 //@   ensures #err: result1 == nil
-//@   ensures #containers: forall j int :: 0 <= j && j < len(pod.Spec.Containers) ==> after(c, pod.Spec.Containers, j)
-//@   ensures #init: forall j int :: 0 <= j && j < len(pod.Spec.InitContainers) ==> after(c, pod.Spec.InitContainers, j)
+//@   ensures #containers: forall j int :: {pod.Spec.Containers[j].Resources.Limits} {pod.Spec.Containers[j].Resources.Requests} {old(pod.Spec.Containers[j].Resources.Requests)} 0 <= j && j < len(pod.Spec.Containers) ==> after(c, pod.Spec.Containers, j)
+//@   ensures #init: forall j int :: {pod.Spec.InitContainers[j].Resources.Limits} {pod.Spec.InitContainers[j].Resources.Requests} {old(pod.Spec.InitContainers[j].Resources.Requests)} 0 <= j && j < len(pod.Spec.InitContainers) ==> after(c, pod.Spec.InitContainers, j)
 //@   ensures #overhead: pod.Spec.Overhead == old(pod.Spec.Overhead) && (tier(c) ? mapXlated(c, pod.Spec.Overhead) : sameAsOld(pod.Spec.Overhead))
 //@   ensures #untouched: !tier(c) ==> !result0
-//@   ensures #settled: tier(c) ==> (forall j int :: 0 <= j && j < len(pod.Spec.Containers) ==> settled(c, pod.Spec.Containers, j)) && (forall j int :: 0 <= j && j < len(pod.Spec.InitContainers) ==> settled(c, pod.Spec.InitContainers, j)) && !has(pod.Spec.Overhead, corev1.ResourceCPU) && !has(pod.Spec.Overhead, corev1.ResourceMemory)
+//@   ensures #settled: tier(c) ==> settledUpTo(c, pod.Spec.Containers, len(pod.Spec.Containers)) && settledUpTo(c, pod.Spec.InitContainers, len(pod.Spec.InitContainers)) && !has(pod.Spec.Overhead, corev1.ResourceCPU) && !has(pod.Spec.Overhead, corev1.ResourceMemory)
 //@   ensures #result: result0 <==> (tier(c) && (dirtyBefore(c, pod.Spec.InitContainers, len(pod.Spec.InitContainers)) || dirtyBefore(c, pod.Spec.Containers, len(pod.Spec.Containers)) || old(has(pod.Spec.Overhead, corev1.ResourceCPU) || has(pod.Spec.Overhead, corev1.ResourceMemory))))
 //@   modifies allelems(pod.Spec.Containers), allmaps(pod.Spec.Overhead)   // only container elements and resource lists; no other field of the pod
+// stepping stones inside one iteration (checked once, then assumed):
+// (1) before the request is filled from the limit, both lists of container i are translated in place
+//@   assert before call restrictResourceRequestAndLimit: $arg2 == corev1.ResourceCPU && tier(c) ==> limDone(c, containers, i)
+//@   assert before call restrictResourceRequestAndLimit: $arg2 == corev1.ResourceCPU && tier(c) ==> reqInPlace(c, containers, i)
+// (2) once the last call returns, container i is translated and settled (or untouched for the other classes)
+//@   assert after call restrictResourceRequestAndLimit: $arg2 == corev1.ResourceMemory && tier(c) ==> limDone(c, containers, i)
+//@   assert after call restrictResourceRequestAndLimit: $arg2 == corev1.ResourceMemory && tier(c) ==> reqXlated(c, containers, i)
+//@   assert after call restrictResourceRequestAndLimit: $arg2 == corev1.ResourceMemory && tier(c) ==> settled(c, containers, i)
+//@   assert after call restrictResourceRequestAndLimit: $arg2 == corev1.ResourceMemory && !tier(c) ==> contSame(containers, i)
 //@   loop 1 invariant 0 <= $i && $i <= 2
 //@   loop 1 invariant tier(c) ==> (mutated <==> (($i >= 1 && dirtyBefore(c, pod.Spec.InitContainers, len(pod.Spec.InitContainers))) || ($i >= 2 && dirtyBefore(c, pod.Spec.Containers, len(pod.Spec.Containers)))))
-//@   loop 1 invariant forall j int :: 0 <= j && j < len(pod.Spec.InitContainers) ==> ($i >= 1 ? after(c, pod.Spec.InitContainers, j) : contSame(pod.Spec.InitContainers, j))
-//@   loop 1 invariant forall j int :: 0 <= j && j < len(pod.Spec.Containers) ==> ($i >= 2 ? after(c, pod.Spec.Containers, j) : contSame(pod.Spec.Containers, j))
+//@   loop 1 invariant $i < 1 ==> sameFrom(pod.Spec.InitContainers, 0)
+//@   loop 1 invariant $i < 2 ==> sameFrom(pod.Spec.Containers, 0)
+//@   loop 1 invariant tier(c) && $i >= 1 ==> doneUpTo(c, pod.Spec.InitContainers, len(pod.Spec.InitContainers))
+//@   loop 1 invariant tier(c) && $i >= 1 ==> settledUpTo(c, pod.Spec.InitContainers, len(pod.Spec.InitContainers))
+//@   loop 1 invariant tier(c) && $i >= 2 ==> doneUpTo(c, pod.Spec.Containers, len(pod.Spec.Containers))
+//@   loop 1 invariant tier(c) && $i >= 2 ==> settledUpTo(c, pod.Spec.Containers, len(pod.Spec.Containers))
+//@   loop 1 invariant !tier(c) ==> sameFrom(pod.Spec.InitContainers, 0)
+//@   loop 1 invariant !tier(c) ==> sameFrom(pod.Spec.Containers, 0)
 //@   loop 1 invariant sameAsOld(pod.Spec.Overhead)
 //@   loop 1 invariant !tier(c) ==> !mutated
 //@   loop 2 invariant 0 <= $i && $i <= len(containers)
 //@   loop 2 invariant sameSlice(containers, pod.Spec.InitContainers) || sameSlice(containers, pod.Spec.Containers)
-//@   loop 2 invariant forall j int :: 0 <= j && j < len(pod.Spec.InitContainers) ==> (sameSlice(containers, pod.Spec.InitContainers) ? (j < $i ? after(c, pod.Spec.InitContainers, j) : contSame(pod.Spec.InitContainers, j)) : after(c, pod.Spec.InitContainers, j))
-//@   loop 2 invariant forall j int :: 0 <= j && j < len(pod.Spec.Containers) ==> (sameSlice(containers, pod.Spec.InitContainers) ? contSame(pod.Spec.Containers, j) : (j < $i ? after(c, pod.Spec.Containers, j) : contSame(pod.Spec.Containers, j)))
+// the slice the inner loop does not walk lives in another backing array (or is empty)
+//@   loop 2 invariant sameSlice(containers, pod.Spec.InitContainers) ==> len(pod.Spec.Containers) == 0 || len(containers) == 0 || arr(containers) != arr(pod.Spec.Containers)
+//@   loop 2 invariant !sameSlice(containers, pod.Spec.InitContainers) ==> len(pod.Spec.InitContainers) == 0 || len(containers) == 0 || arr(containers) != arr(pod.Spec.InitContainers)
+// phase A: the inner loop walks the init containers
+//@   loop 2 invariant tier(c) && sameSlice(containers, pod.Spec.InitContainers) ==> doneUpTo(c, containers, $i)
+//@   loop 2 invariant tier(c) && sameSlice(containers, pod.Spec.InitContainers) ==> settledUpTo(c, containers, $i)
+//@   loop 2 invariant sameSlice(containers, pod.Spec.InitContainers) ==> sameFrom(containers, $i)
+//@   loop 2 invariant sameSlice(containers, pod.Spec.InitContainers) ==> sameFrom(pod.Spec.Containers, 0)
+// phase B: the inner loop walks the containers
+//@   loop 2 invariant tier(c) && !sameSlice(containers, pod.Spec.InitContainers) ==> doneUpTo(c, pod.Spec.InitContainers, len(pod.Spec.InitContainers))
+//@   loop 2 invariant tier(c) && !sameSlice(containers, pod.Spec.InitContainers) ==> settledUpTo(c, pod.Spec.InitContainers, len(pod.Spec.InitContainers))
+//@   loop 2 invariant tier(c) && !sameSlice(containers, pod.Spec.InitContainers) ==> doneUpTo(c, containers, $i)
+//@   loop 2 invariant tier(c) && !sameSlice(containers, pod.Spec.InitContainers) ==> settledUpTo(c, containers, $i)
+//@   loop 2 invariant !sameSlice(containers, pod.Spec.InitContainers) ==> sameFrom(containers, $i)
+// other priority classes: nothing is touched
+//@   loop 2 invariant !tier(c) ==> sameFrom(pod.Spec.InitContainers, 0)
+//@   loop 2 invariant !tier(c) ==> sameFrom(pod.Spec.Containers, 0)
 //@   loop 2 invariant sameAsOld(pod.Spec.Overhead)
 //@   loop 2 invariant !tier(c) ==> !mutated
 //@   loop 2 invariant tier(c) ==> (mutated <==> (sameSlice(containers, pod.Spec.InitContainers) ? dirtyBefore(c, pod.Spec.InitContainers, $i) : (dirtyBefore(c, pod.Spec.InitContainers, len(pod.Spec.InitContainers)) || dirtyBefore(c, pod.Spec.Containers, $i))))
